@@ -49,12 +49,12 @@ def run(ctx, cfg, fnpath, uninterpreted=None, inline=(), **kw):
     ctx.absorb(ip, fnpath)
     its = []
     for (p, head, bst, bmap, valid, cur) in ip.back_states:
-        if p != fnpath and p.split('::{closure')[0] in X.KNOWN_FNS:
+        if p != fnpath and (p.startswith('#') or p.split('::{closure')[0] in X.KNOWN_FNS):
             continue      # loops of callees of the reference tree are theirs; a helper extracted later is part of this function
         start = bst.ghost.get(('iter-start', len(bst.frames), head), 0)
         its.append(Iteration(head, bst, bst.calls[start:], cur, bmap, valid))
     log = Log(ip, fn, outs, its)
-    log.entries = [(h[1], h[5]) for h in ip.head_states if h[0] == fnpath or h[0].split('::{closure')[0] not in X.KNOWN_FNS]
+    log.entries = [(h[1], h[5]) for h in ip.head_states if h[0] == fnpath or not (h[0].startswith('#') or h[0].split('::{closure')[0] in X.KNOWN_FNS)]
     return log
 
 
